@@ -46,6 +46,7 @@ type EntrySpec struct {
 	What  string   `json:"what"`
 	Subst map[string]string `json:"subst"`
 	Noop  []string `json:"noop"`
+	NotAtomic []string `json:"not_atomic"` // functions of the spec's atomic_funcs that this entry runs with scheduling points
 }
 
 type PkgSpec struct {
@@ -129,6 +130,8 @@ func samePanicKind(symbolic, native string) bool {
 	}
 	return a == b
 }
+
+var noScheduleReplay = map[string]bool{}
 
 // devRun: not the registered check (which runs every entry against /repo)
 func devRun() bool { return *flagRepo != "/repo" || *flagEntry != "" }
@@ -479,8 +482,17 @@ func run() int {
 			fatal(fmt.Errorf("entry %s not found in %s", e.Func, spec.Packages[e.pkg].Package))
 		}
 		esh := sh
-		if len(e.Subst) > 0 || len(e.Noop) > 0 {
+		if len(e.Subst) > 0 || len(e.Noop) > 0 || len(e.NotAtomic) > 0 {
 			cp := *sh
+			if len(e.NotAtomic) > 0 {
+				cp.AtomicFns = map[string]bool{}
+				for k, v := range sh.AtomicFns {
+					cp.AtomicFns[k] = v
+				}
+				for _, n := range e.NotAtomic {
+					delete(cp.AtomicFns, n)
+				}
+			}
 			cp.Subst = map[string]*ssa.Function{}
 			for k, v := range sh.Subst {
 				cp.Subst[k] = v
@@ -504,6 +516,12 @@ func run() int {
 				cp.Noop[n] = true
 			}
 			esh = cp.Clone()
+		}
+		if len(e.NotAtomic) > 0 {
+			// the native instrumentation treats the spec's atomic functions as indivisible, so the
+			// schedules of this entry cannot be replayed through the baton: its samples are not
+			// validated natively and only its race reports (confirmed by go test -race) can alarm
+			noScheduleReplay[e.Func] = true
 		}
 		r := sym.Explore(esh, fn, e.Func, lim)
 		results = append(results, r)
@@ -542,6 +560,9 @@ func run() int {
 			addDF(drawFile{Entry: v.Entry, Kind: "cex", AssertID: v.AssertID, Draws: v.Draws, Msg: v.Msg})
 		}
 		for _, s := range r.Samples {
+			if noScheduleReplay[s.Entry] {
+				continue // its schedules run through code that has no native scheduling points
+			}
 			addDF(drawFile{Entry: s.Entry, Kind: "sample", Draws: s.Draws, Obs: s.Obs})
 		}
 	}
